@@ -216,9 +216,9 @@ struct TimeoutData {
 pub(crate) struct TimerWheel {
     heap: BinaryHeap<TimeoutData>,
     counter: u32,
-    // Counters of the timeouts that expired during the last poll and whose
-    // event has not been processed yet
-    expired: Vec<u32>,
+    // The timeouts that expired during the last poll and whose event has not
+    // been processed yet
+    expired: Vec<TimeoutData>,
 }
 
 impl TimerWheel {
@@ -250,7 +250,7 @@ impl TimerWheel {
     }
 
     pub(crate) fn cancel(&mut self, counter: u32) {
-        self.expired.retain(|&c| c != counter);
+        self.expired.retain(|data| data.counter != counter);
         if self
             .heap
             .peek()
@@ -270,8 +270,9 @@ impl TimerWheel {
 
         // There is an item in the heap, this unwrap cannot blow
         let data = self.heap.pop().unwrap();
-        self.expired.push(data.counter);
-        Some((data.counter, data.token))
+        let ret = (data.counter, data.token);
+        self.expired.push(data);
+        Some(ret)
     }
 
     /// Forget the expirations of the previous poll, their events are gone
@@ -279,10 +280,17 @@ impl TimerWheel {
         self.expired.clear();
     }
 
+    /// Put back the timeouts that expired during the last poll but whose event
+    /// was not processed (the dispatch was interrupted by an error), so that
+    /// they expire again instead of being lost
+    pub(crate) fn requeue_expired(&mut self) {
+        self.heap.extend(self.expired.drain(..));
+    }
+
     /// Consume the expiration of this timeout, returns `false` if it did not
     /// expire during the last poll
     pub(crate) fn take_expired(&mut self, counter: u32) -> bool {
-        match self.expired.iter().position(|&c| c == counter) {
+        match self.expired.iter().position(|data| data.counter == counter) {
             Some(pos) => {
                 self.expired.swap_remove(pos);
                 true
